@@ -77,10 +77,11 @@ def other_class(case, fnd, ev):
             if c['kind'] != kind or ('audit' in c['quals']) != audit or 'deny' in c['quals']:
                 continue
             flat = ' '.join(c['tokens'])
-            vals = [v for k in want if f.get(k) for v in f[k].split()]
+            # list-valued attributes are compared item by item; a path is one value, written bare or between quotes
+            vals = [v for k in want if f.get(k) for v in ([f[k]] if k in ('name', 'srcname', 'target') else f[k].split())]
             if r['class'] == 'dbus' and f.get('name') and f['mask'] != 'bind':
                 pass        # the peer name may legitimately be generalised (:1.42 -> @{busname})
-            if all(re.search(r'(^|[\s=(,])%s($|[\s,)])' % re.escape(v), flat) for v in vals):
+            if all(re.search(r'(^|[\s=(,"])%s($|[\s,)"])' % re.escape(v), flat) for v in vals):
                 ok = True
         n += 1
         if not ok:
